@@ -48,10 +48,11 @@ var newCapChoices = []int{0, 1, 7, 64, 4096, 1 << 16}
 func c13Task(r *core.Rng, tier string) core.TaskSpec {
 	o := core.HistOpts{Shapes: c13Shapes, PageMin: 1, PageMax: 4, MinBatches: 1, MaxBatches: 3, MaxOps: 10, Profile: core.Benign}
 	o.HugePct = 1
+	o.ManyPct, o.ManyMax = 2, 24 // footers beyond 4 KiB, many row groups per instance
 	if tier == "thorough" {
 		o.MaxOps = 16
 		o.LargePct = 1
-		o.ManyPct, o.ManyMax = 1, 40
+		o.ManyPct, o.ManyMax = 2, 40
 	}
 	w := core.GenHistory(r, o)
 	t := core.TaskSpec{Kind: "writer", W: w}
